@@ -26,9 +26,7 @@ func usableNotices() []string {
 		toks, ml := classifier.VerifTokenize([]byte(t+"\n"), true)
 		if len(toks) == 0 && len(ml) == 1 {
 			out = append(out, t)
-		} else if !strings.Contains(t, "[") {
-			// ("[yyyy]" never reaches the expressions as written: "[" does not start a word for the tokenizer, so the
-			// bracketed templates are not notices for the code as it is - they stay filtered, as before)
+		} else {
 			notNotices = append(notNotices, t)
 		}
 	}
@@ -123,7 +121,13 @@ func cmdC06(seed uint64, tier, outdir string) {
 		}
 	}
 	for _, t := range notNotices {
-		emit("notice-template", "alone", []byte(t), "the line is a copyright notice / date by the ignorable-text expressions but is tokenized as text: "+t, "", 1)
+		cls := ""
+		if strings.Contains(t, "[") {
+			// the "[yyyy]" / "[dates of first publication]" alternatives of the expressions can never match: "[" does not
+			// start a word for the tokenizer, so the expressions see "yyyy]" (known finding)
+			cls = "bracketed-placeholder-notice"
+		}
+		emit("notice-template", "alone", []byte(t), "the line is a copyright notice / date by the ignorable-text expressions but is tokenized as text: "+t, cls, 1)
 	}
 	rev := map[string][]string{}
 	for k, v := range iw {
